@@ -452,6 +452,20 @@ class IRGenerator:
                             item.lineno, item.path)
                     env[item.target] = imported_env
 
+    @staticmethod
+    def _symbol_already_defined(item, existing):
+        ast_node = getattr(existing, '_ast_node', None)
+        if ast_node is None:
+            # Built-in data types and imported namespaces have no definition
+            # site to point at.
+            return InvalidSpec(
+                'Symbol %s already defined.' % quote(item.name),
+                item.lineno, item.path)
+        return InvalidSpec(
+            'Symbol %s already defined (%s:%d).' %
+            (quote(item.name), ast_node.path, ast_node.lineno),
+            item.lineno, item.path)
+
     def _create_alias(self, env, item):
         # NOTE: I don't like supporting forward references for aliases
         # because it makes specs harder to read. But we have to so that if a
@@ -459,10 +473,7 @@ class IRGenerator:
         # in the command line which affects alias ordering is irrelevant.
         if item.name in env:
             existing_dt = env[item.name]
-            raise InvalidSpec(
-                'Symbol %s already defined (%s:%d).' %
-                (quote(item.name), existing_dt._ast_node.path,
-                existing_dt._ast_node.lineno), item.lineno, item.path)
+            raise self._symbol_already_defined(item, existing_dt)
 
         namespace = self.api.ensure_namespace(env.namespace_name)
         alias = Alias(item.name, namespace, item)
@@ -473,10 +484,7 @@ class IRGenerator:
     def _create_annotation(self, env, item):
         if item.name in env:
             existing_dt = env[item.name]
-            raise InvalidSpec(
-                'Symbol %s already defined (%s:%d).' %
-                (quote(item.name), existing_dt._ast_node.path,
-                existing_dt._ast_node.lineno), item.lineno, item.path)
+            raise self._symbol_already_defined(item, existing_dt)
 
         namespace = self.api.ensure_namespace(env.namespace_name)
 
@@ -506,10 +514,7 @@ class IRGenerator:
     def _create_annotation_type(self, env, item):
         if item.name in env:
             existing_dt = env[item.name]
-            raise InvalidSpec(
-                'Symbol %s already defined (%s:%d).' %
-                (quote(item.name), existing_dt._ast_node.path,
-                existing_dt._ast_node.lineno), item.lineno, item.path)
+            raise self._symbol_already_defined(item, existing_dt)
 
         namespace = self.api.ensure_namespace(env.namespace_name)
 
@@ -553,10 +558,7 @@ class IRGenerator:
         """Create a forward reference for a union or struct."""
         if item.name in env:
             existing_dt = env[item.name]
-            raise InvalidSpec(
-                'Symbol %s already defined (%s:%d).' %
-                (quote(item.name), existing_dt._ast_node.path,
-                 existing_dt._ast_node.lineno), item.lineno, item.path)
+            raise self._symbol_already_defined(item, existing_dt)
         namespace = self.api.ensure_namespace(env.namespace_name)
         if isinstance(item, AstStructDef):
             try:
@@ -1269,12 +1271,7 @@ class IRGenerator:
                             existing_dt._ast_node.lineno),
                         item.lineno, item.path)
             else:
-                existing_dt = env[item.name]
-                raise InvalidSpec(
-                    'Symbol %s already defined (%s:%d).' % (
-                        quote(item.name), existing_dt._ast_node.path,
-                        existing_dt._ast_node.lineno),
-                    item.lineno, item.path)
+                raise self._symbol_already_defined(item, env[item.name])
         else:
             env[item.name] = ApiRoutesByVersion()
 
